@@ -5,6 +5,7 @@ import (
 	"go/token"
 	"go/types"
 	"regexp"
+	"sort"
 	"strconv"
 	"strings"
 
@@ -152,6 +153,11 @@ func headerWrites(p *Prog, fn *ssa.Function) (buf ssa.Value, slots []codeSlot, p
 		}
 	})
 	if len(writes) == 0 {
+		// the other common form: a byte slice of fixed length filled with
+		// binary.LittleEndian.PutUintNN(hdr[off:], v) at constant offsets
+		if b, sl, pr := headerPuts(p, fn); b != nil {
+			return b, sl, pr
+		}
 		return nil, nil, []string{"no write to a bytes.Buffer found"}
 	}
 	buf = writes[0].Call.Args[0]
@@ -185,6 +191,75 @@ func headerWrites(p *Prog, fn *ssa.Function) (buf ssa.Value, slots []codeSlot, p
 		slots = append(slots, codeSlot{off, size, isFloat, prov, plain, w})
 		off += size
 	}
+	return buf, slots, problems
+}
+
+// headerPuts extracts the layout of a header built in a fixed-length byte slice with
+// binary.LittleEndian.PutUint16/32/64 at constant offsets.
+func headerPuts(p *Prog, fn *ssa.Function) (buf ssa.Value, slots []codeSlot, problems []string) {
+	Instrs(fn, func(in ssa.Instruction) {
+		call, ok := in.(*ssa.Call)
+		if !ok || call.Call.StaticCallee() == nil {
+			return
+		}
+		name := call.Call.StaticCallee().Name()
+		size := map[string]int{"PutUint16": 2, "PutUint32": 4, "PutUint64": 8}[name]
+		if size == 0 || !strings.Contains(CalleeName(&call.Call), "encoding/binary") {
+			return
+		}
+		args := call.Call.Args
+		dst, val := args[len(args)-2], args[len(args)-1]
+		if strings.Contains(CalleeName(&call.Call), "bigEndian") {
+			problems = append(problems, "a header field is written big-endian at "+p.InstrPos(in))
+		}
+		off := 0
+		base := dst
+		if sl, ok := dst.(*ssa.Slice); ok {
+			base = sl.X
+			if sl.Low != nil {
+				k, isC := constInt(sl.Low)
+				if !isC {
+					problems = append(problems, "a header field is written at a computed offset at "+p.InstrPos(in))
+					return
+				}
+				off = int(k)
+			}
+		}
+		if buf == nil {
+			buf = base
+		} else if base != buf {
+			problems = append(problems, "header fields are written into different buffers")
+		}
+		if InLoop(in) {
+			problems = append(problems, "a header write is inside a loop at "+p.InstrPos(in))
+		}
+		// the value: integer conversion of a field, or the bit pattern of a float
+		isFloat := false
+		v := val
+		for i := 0; i < 4; i++ {
+			if c, ok := v.(*ssa.Convert); ok {
+				v = c.X
+				continue
+			}
+			if c, ok := v.(*ssa.Call); ok && (IsCallTo(c, "math.Float32bits") || IsCallTo(c, "math.Float64bits")) {
+				isFloat = true
+				v = c.Call.Args[0]
+				continue
+			}
+			break
+		}
+		// a narrowing conversion on the way changes the quantity
+		plainWidth := true
+		if c, ok := val.(*ssa.Convert); ok && isIntLike(c.X.Type()) && isIntLike(c.Type()) && intSize(c.Type()) < intSize(c.X.Type()) {
+			plainWidth = false
+		}
+		prov, plain := provenance(v, fn.Params[0])
+		slots = append(slots, codeSlot{off, size, isFloat, prov, plain && plainWidth, in})
+	})
+	if buf == nil {
+		return nil, nil, nil
+	}
+	sort.Slice(slots, func(i, j int) bool { return slots[i].off < slots[j].off })
 	return buf, slots, problems
 }
 
@@ -241,8 +316,33 @@ func runC14(p *Prog, r *Report) {
 		}
 		r.Fn(FuncName(fn))
 		buf, slots, problems := headerWrites(p, fn)
+		// a header some of whose fields are written at computed offsets (in a loop) is only partly
+		// decided: the fields at constant offsets are compared with the documented slot at the same offset
+		partial := false
+		var hard []string
 		for _, pr := range problems {
+			if strings.Contains(pr, "computed offset") || strings.Contains(pr, "inside a loop") {
+				partial = true
+			} else {
+				hard = append(hard, pr)
+			}
+		}
+		for _, pr := range hard {
 			r.Bad("C14.R1", b.name+": header construction", p.Pos(fn.Pos()), pr)
+		}
+		if partial {
+			r.Unk("C14.R1", b.name+": header construction", p.Pos(fn.Pos()), "some header fields are written at computed offsets or in a loop: only the fields at constant offsets are compared with the document, the rest of the layout is not decided")
+			for _, sl := range slots {
+				for _, d := range b.table {
+					if d.off != sl.off {
+						continue
+					}
+					key := fmt.Sprintf("%s: slot at byte %d (%s)", b.name, d.off, strings.TrimSpace(strings.Split(d.desc, "(")[0]))
+					r.Check(sl.size == d.size && (!d.float || sl.float), "C14.R1", key, p.InstrPos(sl.instr), fmt.Sprintf("%d bytes at offset %d", sl.size, sl.off),
+						fmt.Sprintf("the code writes %d bytes (float=%v) at offset %d; the document says %d bytes (float=%v) there", sl.size, sl.float, sl.off, d.size, d.float))
+				}
+			}
+			continue
 		}
 		if len(problems) == 0 {
 			r.OK("C14.R1", b.name+": header construction", p.Pos(fn.Pos()), "one straight sequence of scalar writes into one buffer")
